@@ -28,6 +28,11 @@ type Case struct {
 	// before the catalogue walk); only catalogue-free ops are used.
 	ConcFirst bool `json:"conc_first,omitempty"`
 
+	// PoolsRetain: sync.Pool behaves normally in this run (it retains items);
+	// otherwise every pool drops what is put into it, which keeps pooled objects
+	// (fmt's printers, for one) from ordering otherwise unrelated tasks.
+	PoolsRetain bool `json:"pools_retain,omitempty"`
+
 	// refOf: this case differs from *refOf only in its schedule, so the
 	// sequential reference computed for *refOf is valid for it (not serialised).
 	refOf *Case
